@@ -195,7 +195,7 @@ PROPS["C08"] = dict(
     technique="differential property-based testing over generated histories: the target utterance after a history of utterances / grammar switches / failed utterances / result queries vs the same utterance on a fresh decoder (isolated copy of the pristine process); repetition determinism; two-decoder interleavings vs solo runs",
     level_text="Generated histories of 1-4 utterances (streaming, buffered, full_utt; zero audio; no hypothesis; grammar switched and switched back; partial and final lattice/N-best/JSON/alignment queries; set_cmn) followed by a target utterance whose channel-normalisation state is reset with decoder_set_cmn (no reset for full_utt with cmn=batch): the canonical record must equal the one of a fresh decoder, and running it twice gives the same record; chunk-level interleavings of two live decoders must give each decoder its solo record; get_cmn/set_cmn text is a fixpoint.",
     level_note="Trusted: fork isolation as the definition of 'fresh decoder' (same pristine image), the canonical record (hyp, score, segments with scores, frame counts, alignment, lattice size).",
-    quick=dict(cases=22, maxlen=900, budget=90),
+    quick=dict(cases=16, maxlen=900, budget=80),
     thorough=dict(cases=2000, maxlen=900, budget=1500),
     rule=_DECODE_RULE + "History family: 1-4 history utterances then a target; decoders default | compallsen | cmn=batch. Two-decoder family: two utterances interleaved chunk by chunk. Non-trivial = history of >= 2 steps differing from the target in audio or grammar and a target hypothesis (history family), or a hypothesis on either decoder (two-decoder family); distinct = distinct case text.",
     assumptions=["the channel-normalisation state is the one deliberate carry-over and is reset with decoder_set_cmn"],
